@@ -423,7 +423,8 @@ func countNodes(v interface{}) int {
 	return 1
 }
 
-var c18Runes = []rune{0x00, 0x01, 0x08, '\t', '\n', '\f', '\r', 0x1f, ' ', '"', '\\', '/', 'a', 'u', 0x7f, 'é', 0x2028, 0xFFFD, 0xFFFF, 0x1F600}
+var c18Runes = []rune{0x00, 0x01, 0x08, '\t', '\n', '\f', '\r', 0x1f, ' ', '"', '\\', '/', 'a', 'u', 0x7f, 'é', 0x2028, 0xFFFD, 0xFFFF, 0x1F600,
+	0x80, 0x200B, 0xE000, 0x40000, 0xE0001, 0x10FFFF} // + C1 control, zero width, private use, unassigned / tag astral, last code point
 
 func runC18(c *core.Ctx) {
 	defer func() { ggql.Sort = false }()
